@@ -156,3 +156,13 @@ native_unit("fft_native", "winter-prover", "prover", "native/fft_bounded.rs", ["
             "the fast transforms return exactly the direct evaluations at offset * w^i in natural order (direct evaluation written in the stand-in), interpolation inverts them, degree inference reports the true degree, and the column-batched / segmented LDE of a matrix equals direct evaluation of every column polynomial; permute_index is the bit reversal",
             "NATIVE EXECUTION, not a proof: sizes 2^1..2^10 (2^12 thorough) x 3 coefficient shapes x offsets {1, generator, seeded} x blowups {1, 2, 4, 8, 16, 128} with size * blowup <= 2^13 (2^15 thorough); f64, f128, f62, their quadratic extensions, cubic extensions of f64 / f62; matrices of 8 / 64 / 512 rows with 1..255 columns over f64, f128 and extensions; without the `concurrent` feature",
             timeout=2400)
+
+kani_unit("fft_index", "winter-math", "math/src/fft/mod.rs", "kani/math_fft.rs", "fft", [
+    H("fft_permute_index_contract", ["C09"], ["fft::permute_index"],
+      "forall k <= 63, i < 2^k: permute_index(2^k, i) < 2^k, is the k-bit reversal of i (bit b == bit k-1-b of i), and permute_index(2^k, .) is an involution"),
+    H("fft_permute_index_injective_contract", ["C09"], ["fft::permute_index"],
+      "forall k <= 63, i != j < 2^k: permute_index(2^k, i) != permute_index(2^k, j)"),
+    H("fft_index_canary_must_fail", ["C09"], [], "false claim: permute_index(8, i) == i", canary=True),
+])
+
+verus_unit("fftv", "fftv", ["C09"], ["fft::fft_inputs::FftInputs::permute (every power-of-two length: position t receives the element at the bit-reversed position)"])
